@@ -1,7 +1,9 @@
 """C17 — code generation is a pure, repeatable function of the spec.
 
 Histories of 1..3 invocations of the real generators (soup-app = itch/ouch/sqf, FIX, ASN.1, new_project) are run through the
-real click entry points, each *process segment* of a history in its own OS process (forked from a zygote that has imported the
+real click entry points — whole, or split at the entry point's own call of `<generator>.generate()` into the two halves of the
+generator API (`construct`: parse + generator object, `generate`), the halves of 2..3 generators interleaved in any order —,
+each *process segment* of a history in its own OS process (forked from a zygote that has imported the
 library but never ran a generator), into temp directories outside /verif and /repo (removed afterwards).  After every invocation
 the whole tree is snapshotted; `open(..., 'w'|'a')` and `shutil.rmtree` are observed from outside (the worker wraps them), so each
 file is known as the *list of chunks* written to it.  Right after every successful generator invocation a forked child imports
@@ -931,10 +933,14 @@ class SpecFactory:
         else:
             root, uses = [], ([rng.choice(names)] if rng.random() < 0.3 else [])
         msgs = rng.sample([65, 66, 67, 68], rng.randint(1, 3))
-        if rng.random() < 0.15:
-            # a message id declared twice (same direction when the two positions have the same parity): what happens is decided
-            # by `--override-messages` (the later declaration wins) / `--no-override-messages` (ValueError)
-            msgs.insert(rng.randint(0, len(msgs)), rng.choice(msgs))
+        if rng.random() < 0.2:
+            # a message id declared twice (the same key — id and direction — when the two positions have the same parity): what
+            # happens is decided by `--override-messages` (the later declaration wins) / `--no-override-messages` (ValueError)
+            j = rng.randrange(len(msgs))
+            at = j + 2 if rng.random() < 0.7 else rng.randint(0, len(msgs))
+            while len(msgs) < at:
+                msgs.append(rng.choice([69, 70]))
+            msgs.insert(at, msgs[j])
         return self._soup(root, uses, msgs)
 
     def _soup(self, root, uses, msgs):
@@ -1033,8 +1039,8 @@ def gen_invocation(rng, sf, kind, d):
     init = rng.random() < 0.8
     if kind == 'soup':
         ev = {'gen': 'soup', 'impl': rng.choice(IMPLS), 'spec': sf.soup(), 'app': app, 'prefix': prefix, 'init': init, 'dir': d}
-        if rng.random() < 0.3:
-            ev['override'] = rng.random() < 0.5        # the flag given explicitly (absent: the entry point's default)
+        if rng.random() < 0.4:
+            ev['override'] = rng.random() < 0.4        # the flag given explicitly (absent: the entry point's default)
         return ev
     if kind == 'fix':
         return {'gen': 'fix', 'spec': sf.fix(), 'app': app, 'prefix': prefix, 'init': init, 'dir': d}
@@ -1440,8 +1446,13 @@ def run(ctx):
     ctx.cov['rule'] = ('histories of 1..3 invocations of the real soup-app (itch/ouch/sqf), FIX, ASN.1 generators and new_project: '
                        'same spec repeated / edited spec / other spec, same / other output directory, same / other target '
                        '(app, prefix, init flag), one process / a process per invocation / mixed, same or distinct spec file path, '
-                       'user edits between project runs, generator run into a project application directory; specs from small '
-                       'families with overlapping field names, message ids, group names; distinct = distinct history, '
+                       'user edits between project runs, generator run into a project application directory; every option of every '
+                       'entry point changes between invocations (--fix-version, --prefix, --app-name, --init-file, '
+                       '--override-messages, --pdu-name, --package-name, --op-dir, the protocol entry point); histories at the '
+                       'granularity of the generator API: construct(k) / generate(k) of 2..3 generators and whole invocations '
+                       'interleaved in any order, generate() called 0, 1 or 2 times; specs from small families with overlapping '
+                       'field names, message ids (also repeated keys), group names, FIX fields of all 29 type names of '
+                       'version_types.py (documented for the version or not); distinct = distinct history, '
                        'non-trivial = at least two invocations')
     pool = Pool(REPO, 12)
     load_flags(ctx)
